@@ -65,10 +65,14 @@ NetsOf(sk, addr) == IF sk.v = 4 THEN {4} ELSE IF addr = AnyA /\ ~sk.v6only THEN 
 
 Bind == /\ IsEvent("op") /\ Ev.op = "bind" /\ expect = NoExp
         /\ IF Ev.err = ""
-           THEN socks' = [socks EXCEPT ![Ev.s].st = "bound", ![Ev.s].laddr = Ev.addr, ![Ev.s].lport = Ev.lport,
-                                       ![Ev.s].nets = NetsOf(socks[Ev.s], Ev.addr),
-                                       ![Ev.s].holds = TRUE, ![Ev.s].haddr = Ev.addr, ![Ev.s].hport = Ev.lport,
-                                       ![Ev.s].hnets = NetsOf(socks[Ev.s], Ev.addr)]
+           \* (a dual-stack IPv6 socket bound to a v4-mapped address is an IPv4 socket bound to the embedded address: eaddr)
+           THEN LET mapped == socks[Ev.s].v = 6 /\ "eaddr" \in DOMAIN Ev
+                    la == IF mapped THEN Ev.eaddr ELSE Ev.addr
+                    nets == IF mapped THEN {4} ELSE NetsOf(socks[Ev.s], Ev.addr) IN
+                socks' = [socks EXCEPT ![Ev.s].st = "bound", ![Ev.s].laddr = la, ![Ev.s].lport = Ev.lport,
+                                       ![Ev.s].nets = nets,
+                                       ![Ev.s].holds = TRUE, ![Ev.s].haddr = la, ![Ev.s].hport = Ev.lport,
+                                       ![Ev.s].hnets = nets]
            ELSE UNCHANGED socks
         /\ UNCHANGED <<addrs, promisc, q, pemit>> /\ expect' = expect
 
